@@ -127,10 +127,72 @@ func (in *inliner) Body(call *ast.CallExpr) *ast.BlockStmt {
 	}
 	var out *ast.BlockStmt
 	if cfi, repl := in.callee(call); cfi != nil {
-		out, _ = paths.Subst(in.fi.Pkg.TypesInfo, cfi.Decl.Body, repl).(*ast.BlockStmt)
+		// an argument that is itself a followed helper building a value (`send(newBatch(n, b))`,
+		// the helper's only return being its last statement): the builder's statements run first,
+		// the parameter stands for what it returns
+		var prefix []ast.Stmt
+		i := 0
+		info := in.fi.Pkg.TypesInfo
+		for _, f := range cfi.Decl.Type.Params.List {
+			for _, n := range f.Names {
+				if i < len(call.Args) {
+					if ac, ok := ast.Unparen(call.Args[i]).(*ast.CallExpr); ok {
+						if stmts, ret := in.valueBody(ac); ret != nil {
+							prefix = append(prefix, stmts...)
+							if obj := info.Defs[n]; obj != nil {
+								repl[obj] = ret
+							}
+							in.body[ac] = nil
+						}
+					}
+				}
+				i++
+			}
+			if len(f.Names) == 0 {
+				i++
+			}
+		}
+		out, _ = paths.Subst(info, cfi.Decl.Body, repl).(*ast.BlockStmt)
+		if out != nil && len(prefix) > 0 {
+			out = &ast.BlockStmt{Lbrace: out.Lbrace, List: append(prefix, out.List...), Rbrace: out.Rbrace}
+		}
 	}
 	in.body[call] = out
 	return out
+}
+
+// valueBody: for a call of a followed helper whose body is `stmts...; return <expr>` (one result, no
+// other return), the substituted statements and the returned expression.
+func (in *inliner) valueBody(call *ast.CallExpr) ([]ast.Stmt, ast.Expr) {
+	cfi, repl := in.callee(call)
+	if cfi == nil || len(cfi.Decl.Body.List) < 2 {
+		return nil, nil
+	}
+	list := cfi.Decl.Body.List
+	last, ok := list[len(list)-1].(*ast.ReturnStmt)
+	if !ok || len(last.Results) != 1 {
+		return nil, nil
+	}
+	nret := 0
+	ast.Inspect(cfi.Decl.Body, func(n ast.Node) bool {
+		switch n.(type) {
+		case *ast.ReturnStmt:
+			nret++
+		case *ast.FuncLit:
+			return false
+		}
+		return true
+	})
+	if nret != 1 {
+		return nil, nil
+	}
+	info := in.fi.Pkg.TypesInfo
+	blk, _ := paths.Subst(info, &ast.BlockStmt{List: list[:len(list)-1]}, repl).(*ast.BlockStmt)
+	ret, _ := paths.Subst(info, last.Results[0], repl).(ast.Expr)
+	if blk == nil || ret == nil {
+		return nil, nil
+	}
+	return blk.List, ret
 }
 
 // Inlinable reports whether the call is followed by Body.
@@ -433,6 +495,17 @@ func expandLocals(info *types.Info, body *ast.BlockStmt, e ast.Expr) ast.Expr {
 				for _, l := range v.Lhs {
 					if id, ok := l.(*ast.Ident); ok {
 						count[info.ObjectOf(id)] += 2
+					}
+				}
+			}
+		case *ast.ValueSpec:
+			for i, nm := range v.Names {
+				if obj := info.Defs[nm]; obj != nil {
+					if i < len(v.Values) && len(v.Values) == len(v.Names) {
+						count[obj]++
+						defs[obj] = v.Values[i]
+					} else if len(v.Values) > 0 {
+						count[obj] += 2
 					}
 				}
 			}
@@ -745,4 +818,10 @@ func defunctionalise(p *core.Program, fi *core.FuncInfo, outer *ast.CallExpr) as
 		return nil
 	}
 	return &ast.BlockStmt{Lbrace: outer.Pos(), List: list, Rbrace: outer.End()}
+}
+
+// identOf: the identifier an expression is, or nil.
+func identOf(e ast.Expr) *ast.Ident {
+	id, _ := ast.Unparen(e).(*ast.Ident)
+	return id
 }
